@@ -31,6 +31,14 @@ run_directed = directed.run
 
 
 def cases(tier, rng):
+    for c in directed.awaitable_kinds_cases():
+        yield "directed-awaitable-kinds", c
+    for c in directed.wrapped_async_public_method_cases():
+        yield "directed-wrapped-async-public-method", c
+    for c in directed.coroutine_invariant_spellings_cases():
+        yield "directed-coroutine-invariant-spellings", c
+    for c in directed.reserved_keyword_after_valid_calls_cases():
+        yield "directed-reserved-keyword-after-valid-calls", c
     thorough = tier == "thorough"
     for c in directed.sometimes_awaitable_condition_cases():
         yield "directed-sometimes-awaitable-condition", c
